@@ -24,13 +24,13 @@ ASSUMPTIONS = [
     "known finding K1 (solve() stops at a stationary cost on non-forest graphs) is attributed only by its full signature",
     "termination is approximated by a watchdog plus a deterministic executed-line budget",
 ]
-MIN_FRACTIONS = {"dag": 0.6, "cyclic": 0.1, "shape:forest": 0.1, "nontrivial": 0.5, "n>=10": 0.2, "non-unit-weights": 0.15, "non-unit-scales": 0.15, "has-duplicates": 0.1, "has-redundant-path": 0.1, "certified": 0.6}
+MIN_FRACTIONS = {"dag": 0.6, "cyclic": 0.1, "shape:forest": 0.05, "nontrivial": 0.5, "n>=10": 0.2, "non-unit-weights": 0.15, "non-unit-scales": 0.15, "has-duplicates": 0.1, "has-redundant-path": 0.1, "certified": 0.6}
 TOL_ABS = 1e-3
 TOL_REL = 1e-9
 
 
 def budget(tier):
-    return dict(examples=1000, shards=4) if tier == "quick" else dict(examples=5000, shards=16)
+    return dict(examples=1500, shards=4) if tier == "quick" else dict(examples=5000, shards=16)
 
 
 # ------------------------------------------------------------------ generator
@@ -43,7 +43,7 @@ DES = st.one_of(st.integers(-20, 20), st.integers(-3, 3).map(lambda v: v + 0.5),
 def instance(draw, tier):
     nmax = 25 if tier == "quick" else 60
     n = draw(st.one_of(st.integers(1, 12), st.integers(1, nmax)))
-    shape = draw(st.sampled_from(["chain", "forest", "forest", "layered", "dense", "sparse"]))
+    shape = draw(st.sampled_from(["chain", "forest", "forest", "layered", "layered", "dense", "dense", "sparse", "diamonds", "diamonds"]))
     edges = []
     if shape == "chain":
         for i in range(n - 1):
@@ -67,6 +67,17 @@ def instance(draw, tier):
             j = draw(st.integers(0, n - 1))
             if i != j:
                 edges.append((min(i, j), max(i, j)))
+    elif shape == "diamonds":
+        # a spanning forest plus a few extra edges: every extra edge closes an undirected cycle, i.e. a second path
+        # between two variables - the shape in which a violated constraint can have both ends in one block
+        for i in range(1, n):
+            if draw(st.integers(0, 9)) < 9:
+                edges.append((draw(st.integers(max(0, i - 3), i - 1)), i))
+        for _ in range(draw(st.integers(1, 4))):
+            if n >= 3:
+                i = draw(st.integers(0, n - 3))
+                j = draw(st.integers(i + 2, min(n - 1, i + 5)))
+                edges.append((i, j))
     else:
         m = draw(st.integers(0, n))
         for _ in range(m):
